@@ -34,7 +34,8 @@ Definition comps (s : str) : list str := split_on ch_slash s.
 Definition dot : str := [46].
 Definition dotdot : str := [46; 46].
 
-Inductive rp := RPath (p : path) | RLoop | RFuel.
+(* RLoopAt q: a symlink loop was met; q is the unresolved join(newpath, rest) Python returns *)
+Inductive rp := RPath (p : path) | RLoopAt (q : list str) | RFuel.
 
 (* _joinrealpath: cur = resolved prefix, rest = components still to process,
    visiting = links currently being resolved (the `seen[...] = None` entries) *)
@@ -51,7 +52,7 @@ Fixpoint join_real (fuel : nat) (f : fs) (cur : path) (rest : list str) (visitin
         let np := cur ++ [n] in
         match lstat f np with
         | Some (Link tgt) =>
-            if existsb (path_eqb np) visiting then RLoop
+            if existsb (path_eqb np) visiting then RLoopAt (np ++ rest')
             else
               let '(start, tc) := match tgt with
                                   | 47 :: t => ([], comps t)
@@ -59,7 +60,8 @@ Fixpoint join_real (fuel : nat) (f : fs) (cur : path) (rest : list str) (visitin
                                   end in
               match join_real fu f start tc (np :: visiting) with
               | RPath p' => join_real fu f p' rest' visiting
-              | other => other
+              | RLoopAt q => RLoopAt (q ++ rest')
+              | RFuel => RFuel
               end
         | _ => join_real fu f np rest' visiting
         end
@@ -68,6 +70,38 @@ Fixpoint join_real (fuel : nat) (f : fs) (cur : path) (rest : list str) (visitin
 
 Definition realpath_fuel : nat := 4000.
 Definition realpath (f : fs) (base : path) (rel : list str) : rp := join_real realpath_fuel f base rel [].
+
+(* abspath/normpath of an absolute component list: "" and "." dropped, ".." pops *)
+Fixpoint lexnorm (cs : list str) (acc : path) : path :=
+  match cs with
+  | [] => acc
+  | n :: r =>
+      if match n with [] => true | _ => false end || eqb n dot then lexnorm r acc
+      else if eqb n dotdot then lexnorm r (removelast acc)
+      else lexnorm r (acc ++ [n])
+  end.
+
+(* handler.py _resolve_fully: Path.resolve() twice; None = not completely resolvable.
+   At a loop Path.resolve() returns the normalised unresolved join unless stat() of it reports
+   ELOOP (RuntimeError); the second resolve() must reproduce the path exactly. *)
+Inductive rfull := FPath (p : path) | FNone | FFuel.
+Definition resolve_fully (f : fs) (base : path) (rel : list str) : rfull :=
+  match realpath f base rel with
+  | RFuel => FFuel
+  | RPath p =>
+      match realpath f [] p with
+      | RPath q => if path_eqb q p then FPath p else FNone
+      | RLoopAt _ => FNone
+      | RFuel => FFuel
+      end
+  | RLoopAt l =>
+      let p := lexnorm l [] in
+      match realpath f [] p with
+      | RPath q => if path_eqb q p then FPath p else FNone
+      | RLoopAt _ => FNone
+      | RFuel => FFuel
+      end
+  end.
 
 (* children of a directory (direct entries) *)
 Definition children (f : fs) (d : path) : list (str * node) :=
